@@ -399,7 +399,8 @@ func judgeC18(r *seqRun) {
 		// only the failures the statement names are demanded
 		k := r.ops[r.ref.FailAt].Kind
 		c := r.ref.Cause
-		named := c == r69.TestUnequal || c == r69.IndexOutOfRange ||
+		// (a negative index while the package setting is off counts as an out-of-range index)
+		named := c == r69.TestUnequal || c == r69.IndexOutOfRange || c == r69.NegativeOff ||
 			((k == "remove" || k == "move") && (c == r69.AbsentMember || c == r69.ParentUnreachable))
 		if !named || r.ref.AltCause != r69.None {
 			r.ctx.Count("legacy_unnamed_failure_skipped", 1)
